@@ -465,7 +465,7 @@ func (s *clientSocket) emitBuffered() {
 			sent, ok := ackIDs[*event.header.ID]
 			if ok && sent {
 				mu.Unlock()
-				return
+				continue
 			}
 			ackIDs[*event.header.ID] = true
 			mu.Unlock()
